@@ -1,0 +1,118 @@
+//go:build verif
+
+// Contracts for deductive verification (comment-only; read by /verif/govc, never compiled into the product).
+//
+// The FSM callbacks are large functions full of logging, event publishing and plugin calls. They are put under
+// "site clauses": ghost variables advanced at named call / store sites, with assertions that hold on EVERY path through
+// the real control-flow graph; everything the clauses do not mention is abstracted (havoc).
+
+package environment
+
+// ---------------------------------------------------------------------------------------------------------
+// before_<event>: negative-weight hooks -> built-in work (run number, run timestamps) -> non-negative hooks.
+// C08 (order inside a moment), C09 (a failing critical hook cancels and nothing later runs),
+// C10 (run number / start time set between the two hook phases), C07 (no run number => START_ACTIVITY cancelled).
+//@ closure newEnvironment "before_event"
+//@   property C08 C09 C10 C07
+//@   ghostvar phase int = 0
+//@   ghostvar cancelled bool = false
+//@   ghostvar negErr bool = false
+//@   ghostvar rnAsked bool = false
+//@   ghostvar rnErr bool = false
+//@   ghostvar rnStored bool = false
+//@   on call (*Environment).handleHooksWithNegativeWeights : assert phase == 0 ; phase = 1
+//@   on aftercall (*Environment).handleHooksWithNegativeWeights : negErr = (result != nil)
+//@   on call (*fsm.Event).Cancel : cancelled = true
+//@   on call .NewRunNumber : assert phase == 1 && !cancelled && !rnAsked ; rnAsked = true
+//@   on aftercall .NewRunNumber : rnErr = (result1 != nil)
+//@   on store environment.Environment.currentRunNumber : assert phase == 1 && rnAsked && !rnErr && !cancelled ; rnStored = true
+//@   on call .SetRuntimeVar : assert phase == 1 && !cancelled
+//@   on call (*Environment).handleHooksWithPositiveWeights : assert phase == 1 && !cancelled && !negErr && !rnErr ; phase = 2
+//@   ensures phase == 2 || cancelled
+//@   ensures negErr ==> cancelled && phase == 1
+//@   ensures rnErr ==> cancelled && phase == 1 && !rnStored
+//@   ensures rnAsked && !rnErr ==> rnStored
+
+// leave_<state>: negative hooks -> end-of-run time when leaving RUNNING -> non-negative hooks -> the task transition.
+//@ closure newEnvironment "leave_state"
+//@   property C08 C09 C10 C02
+//@   ghostvar phase int = 0
+//@   ghostvar cancelled bool = false
+//@   ghostvar negErr bool = false
+//@   ghostvar posErr bool = false
+//@   on call (*Environment).handleHooksWithNegativeWeights : assert phase == 0 ; phase = 1
+//@   on aftercall (*Environment).handleHooksWithNegativeWeights : negErr = (result != nil)
+//@   on call (*fsm.Event).Cancel : cancelled = true
+//@   on call .SetRuntimeVar : assert phase == 1 && !cancelled
+//@   on call (*Environment).handleHooksWithPositiveWeights : assert phase == 1 && !cancelled && !negErr ; phase = 2
+//@   on aftercall (*Environment).handleHooksWithPositiveWeights : posErr = (result != nil)
+//@   on call <dynamic> : assert phase == 2 && !negErr ; phase = 3
+//@   ensures negErr ==> cancelled && phase == 1
+//@   ensures posErr ==> cancelled
+//@   ensures phase == 3 || cancelled || phase == 2
+
+// enter_<state>: a hook failure is reported (Cancel records the error) but the remaining steps still run.
+//@ closure newEnvironment "enter_state"
+//@   property C08 C09
+//@   ghostvar phase int = 0
+//@   ghostvar cancelled bool = false
+//@   ghostvar negErr bool = false
+//@   ghostvar posErr bool = false
+//@   on call (*Environment).handleHooksWithNegativeWeights : assert phase == 0 ; phase = 1
+//@   on aftercall (*Environment).handleHooksWithNegativeWeights : negErr = (result != nil)
+//@   on call .SetRuntimeVar : assert phase == 1
+//@   on call (*Environment).handleHooksWithPositiveWeights : assert phase == 1 ; phase = 2
+//@   on aftercall (*Environment).handleHooksWithPositiveWeights : posErr = (result != nil)
+//@   on call (*fsm.Event).Cancel : assert phase == 2 ; cancelled = true
+//@   ensures phase == 2
+
+// after_<event>: negative hooks -> built-in work (completion timestamps) -> non-negative hooks -> the run number is
+// dropped (only after every hook of after_STOP_ACTIVITY has run).
+//@ closure newEnvironment "after_event"
+//@   property C08 C09 C10
+//@   ghostvar phase int = 0
+//@   on call (*Environment).handleHooksWithNegativeWeights : assert phase == 0 ; phase = 1
+//@   on call .SetRuntimeVar : assert phase == 1
+//@   on call (*Environment).handleHooksWithPositiveWeights : assert phase == 1 ; phase = 2
+//@   on store environment.Environment.currentRunNumber : assert phase == 2 && value == 0
+//@   ensures phase == 2
+
+// The three hook entry points select weights by sign: negative, non-negative, all.
+//@ closure (*Environment).handleHooksWithNegativeWeights #1
+//@   property C08
+//@   ensures result <==> w < 0
+//@ closure (*Environment).handleHooksWithPositiveWeights #1
+//@   property C08
+//@   ensures result <==> w >= 0
+
+// ---------------------------------------------------------------------------------------------------------
+// C01 / C02 / C09: TryTransition fires the FSM event only while holding transitionMutex (released by a deferred Unlock),
+// after the transition's own check; the transition body runs only for an event that was not cancelled and any error it
+// returns cancels the event.
+//@ func (env *Environment) TryTransition(t Transition) (err error)
+//@   property C01
+//@   ghostvar held bool = false
+//@   ghostvar willUnlock bool = false
+//@   ghostvar checked bool = false
+//@   ghostvar checkErr bool = false
+//@   ghostvar fired bool = false
+//@   on aftercall (*sync.RWMutex).TryLock when arg0 == env.transitionMutex : held = result
+//@   on call (*sync.RWMutex).Lock when arg0 == env.transitionMutex : assert !held ; held = true
+//@   on defer (*sync.RWMutex).Unlock when arg0 == env.transitionMutex : assert held ; willUnlock = true
+//@   on call .check : assert held && willUnlock ; checked = true
+//@   on aftercall .check : checkErr = (result != nil)
+//@   on call (*fsm.FSM).Event : assert held && willUnlock && checked && !checkErr && !fired ; fired = true
+//@   ensures held && willUnlock
+//@   ensures checkErr ==> !fired && err != nil
+
+//@ closure (*Environment).handlerFunc #1
+//@   property C02 C09
+//@   ghostvar done bool = false
+//@   ghostvar doErr bool = false
+//@   ghostvar cancelled bool = false
+//@   ghostvar wasCancelled bool = e.Err != nil
+//@   on call .do : assert !wasCancelled && !done ; done = true
+//@   on aftercall .do : doErr = (result != nil)
+//@   on call (*fsm.Event).Cancel : cancelled = true
+//@   ensures wasCancelled ==> !done
+//@   ensures doErr ==> cancelled
